@@ -606,7 +606,7 @@ theorem cryptoHousekeep_WI (env : CryptoEnv) (o : Oracle) (c : Ctx) (now : Int) 
 theorem reconnectToPeers_WI (env : CryptoEnv) (o : Oracle) (c : Ctx) (now : Int) (h : WI S c) : WI S (reconnectToPeers env o c now) := by
   unfold reconnectToPeers
   simp only []
-  have h1 : WI S (c.node.reconnect.foldl (fun c e => if e.next > now then c else connect env o c e.resolved) c) := by
+  have h1 : WI S (c.node.reconnect.foldl (fun c e => if Generated.reconnectNotDue e.next now then c else connect env o c e.resolved) c) := by
     apply foldl_inv (WI S) _ _ _ _ h
     intro c e hc
     split
